@@ -114,7 +114,7 @@ func isTimeoutValue(p *Prog, v ssa.Value, depth int) bool {
 				if fa, ok := r.(*ssa.FieldAddr); ok {
 					if fr, _ := asFieldAddr(fa); fr.Field == field {
 						for _, rr := range *fa.Referrers() {
-							if st, ok := rr.(*ssa.Store); ok && st.Addr == ssa.Value(fa) {
+							if st, ok := rr.(*ssa.Store); ok && sameOrigin(st.Addr, ssa.Value(fa)) {
 								val = st.Val
 							}
 						}
@@ -192,13 +192,13 @@ func runC10(c *Ctx) {
 				return false
 			}
 			n := callName(call)
-			if n == "(*deadline.Deadline).Set" && call.Call.Args[1] == ssa.Value(arg) {
+			if n == "(*deadline.Deadline).Set" && sameOrigin(call.Call.Args[1], ssa.Value(arg)) {
 				if fr, ok := asFieldLoad(call.Call.Args[0]); ok && fr.SName == ow.T {
 					ow.Field = fr.Field
 					return true
 				}
 			}
-			if sc := call.Call.StaticCallee(); sc != nil && sc.Name() == "SetReadDeadline" && len(call.Call.Args) == 2 && call.Call.Args[1] == ssa.Value(arg) {
+			if sc := call.Call.StaticCallee(); sc != nil && sc.Name() == "SetReadDeadline" && len(call.Call.Args) == 2 && sameOrigin(call.Call.Args[1], ssa.Value(arg)) {
 				if fr, ok := asFieldLoad(call.Call.Args[0]); ok && fr.SName == ow.T {
 					if d := byT[typeName(call.Call.Args[0].Type())]; d != nil {
 						ow.Delegate, ow.DelegT = fr.Field, d.T
@@ -223,10 +223,10 @@ func runC10(c *Ctx) {
 				if !ok {
 					return false
 				}
-				if sc := call.Call.StaticCallee(); sc == ow.Set && call.Call.Args[1] == ssa.Value(a2) && call.Call.Args[0] == ssa.Value(ow.SetAll.Params[0]) {
+				if sc := call.Call.StaticCallee(); sc == ow.Set && sameOrigin(call.Call.Args[1], ssa.Value(a2)) && sameOrigin(call.Call.Args[0], ssa.Value(ow.SetAll.Params[0])) {
 					return true
 				}
-				if callName(call) == "(*deadline.Deadline).Set" && call.Call.Args[1] == ssa.Value(a2) {
+				if callName(call) == "(*deadline.Deadline).Set" && sameOrigin(call.Call.Args[1], ssa.Value(a2)) {
 					if fr, ok := asFieldLoad(call.Call.Args[0]); ok && fr.SName == ow.T && fr.Field == ow.Field && ow.Field != "" {
 						return true
 					}
@@ -418,7 +418,7 @@ func readDelegation(rf *ssa.Function, ow *dlOwner, byT map[string]*dlOwner) stri
 		if sc == nil || !strings.HasPrefix(sc.Name(), "Read") || len(call.Call.Args) == 0 {
 			return
 		}
-		if call.Call.Args[0] == ssa.Value(rf.Params[0]) && sc != rf {
+		if sameOrigin(call.Call.Args[0], ssa.Value(rf.Params[0])) && sc != rf {
 			target = fname(sc)
 			n++
 			return
